@@ -84,10 +84,13 @@ def exhaustive(tier):
 
 
 def _listing(fmt):
-    return [[c.string for c in fmt.get_command_names()], list(fmt.get_arguments().keys()),
-            list(fmt.get_options().keys()),
-            [repr(pc.enc(a.default)) for a in fmt.get_arguments().values()],
-            [repr(pc.enc(o.default)) for o in fmt.get_options().values()]]
+    try:
+        return [[c.string for c in fmt.get_command_names()], list(fmt.get_arguments().keys()),
+                list(fmt.get_options().keys()),
+                [repr(pc.enc(a.default)) for a in fmt.get_arguments().values()],
+                [repr(pc.enc(o.default)) for o in fmt.get_options().values()]]
+    except Exception as e:  # noqa - a format that can no longer be listed has been changed by the parse
+        return ["unreadable: " + type(e).__name__]
 
 
 def run_impl(case):
